@@ -53,7 +53,7 @@ def functions_for(R, pid):
     for key, spec in R.specs.items():
         if spec.trusted:
             continue
-        tags = set(spec.raise_props) | set(spec.frame_props)
+        tags = set(spec.raise_props) | set(spec.frame_props) | set(getattr(spec, 'report_props', ()))
         for c in spec.post:
             tags |= set(c.props)
         if pid in tags:
@@ -68,12 +68,13 @@ def main(argv=None):
     ap.add_argument("--replay", default=None)
     ap.add_argument("-j", type=int, default=min(16, os.cpu_count() or 4))
     ap.add_argument("-v", action="store_true")
+    ap.add_argument("--record-baseline", action="store_true")
     args = ap.parse_args(argv)
     from pyvc import report
     if args.prop == "replay":
         from pyvc import replay
         return replay.main(args.replay or (argv or sys.argv[1:])[1])
-    return report.run_property(args.prop.upper(), args.tier, args.j, args.v)
+    return report.run_property(args.prop.upper(), args.tier, args.j, args.v, args.record_baseline)
 
 
 if __name__ == "__main__":
